@@ -8,9 +8,11 @@ package vn
 
 import (
 	"bufio"
+	"context"
 	"flag"
 	"fmt"
 	"os"
+	"runtime"
 	"runtime/debug"
 	"strconv"
 	"strings"
@@ -355,3 +357,147 @@ func Par(f, g func()) {
 
 // RaceFree: no conflicting pair of accesses was logged (natively not observable: true).
 func RaceFree() bool { return true }
+
+// ---- schedule exploration (sched mode) ----
+//
+// Under gse, SchedStart switches the executor to schedule exploration: from then on every
+// interleaving of the interpreted goroutines at their visible operations (channel send /
+// receive / select / close) is a forked decision (with sleep-set reduction). Natively these
+// calls do nothing: the Go scheduler picks one interleaving.
+
+func SchedStart() {}
+func SchedStop()  {}
+
+// SchedQuiesce blocks until no other goroutine can make a step (natively: a pause).
+func SchedQuiesce() { time.Sleep(100 * time.Millisecond) }
+
+var (
+	goroutineDump string
+	baselineIDs   = map[string]bool{}
+)
+
+func dumpAll() string {
+	buf := make([]byte, 4<<20)
+	n := runtime.Stack(buf, true)
+	return string(buf[:n])
+}
+
+func goroutineID(blk string) string {
+	f := strings.Fields(blk)
+	if len(f) >= 2 && f[0] == "goroutine" {
+		return f[1]
+	}
+	return ""
+}
+
+// SnapshotBaseline: goroutines that exist now are ignored by later Live counts (leftovers of
+// earlier runs in the same host process).
+func SnapshotBaseline() {
+	baselineIDs = map[string]bool{}
+	for _, blk := range strings.Split(dumpAll(), "\n\n") {
+		baselineIDs[goroutineID(blk)] = true
+	}
+}
+
+// SnapshotGoroutines records what every goroutine is doing right now.
+func SnapshotGoroutines() {
+	goroutineDump = dumpAll()
+}
+
+// Live counts the goroutines of the last snapshot that have a function whose name contains
+// substr on their stack and are blocked in op ("send", "recv", "select", "" = any).
+func Live(substr, op string) int {
+	want := map[string]string{"send": "chan send", "recv": "chan receive", "select": "select"}[op]
+	n := 0
+	for _, blk := range strings.Split(goroutineDump, "\n\n") {
+		if !strings.Contains(blk, substr) || baselineIDs[goroutineID(blk)] {
+			continue
+		}
+		head := blk
+		if i := strings.IndexByte(blk, '\n'); i >= 0 {
+			head = blk[:i]
+		}
+		if strings.Contains(head, "[running]") {
+			continue
+		}
+		if want != "" && !strings.Contains(head, "["+want) {
+			continue
+		}
+		n++
+	}
+	return n
+}
+
+// ChanSink: sends on ch complete immediately and are invisible to the schedule exploration
+// (natively: nothing). ChanDoneOnly marks a context's Done channel.
+func ChanSink(ch any)     {}
+func ChanDoneOnly(ch any) {}
+
+// RaceDetect switches the happens-before monitor on (gse only); Races is the number of
+// conflicting unordered access pairs seen so far on this path.
+func RaceDetect() {}
+func Races() int  { return 0 }
+
+// ModelCtx is the executor's model of a cancellable context (context.WithCancel is redirected
+// to ModelWithCancel under gse; natively the real context package is used).
+type ModelCtx struct {
+	done   chan struct{}
+	closed bool
+}
+
+func (c *ModelCtx) Deadline() (time.Time, bool) { return time.Time{}, false }
+func (c *ModelCtx) Done() <-chan struct{}       { return c.done }
+func (c *ModelCtx) Value(key any) any           { return nil }
+func (c *ModelCtx) Err() error {
+	if c.closed {
+		return context.Canceled
+	}
+	return nil
+}
+
+func ModelWithCancel(parent context.Context) (context.Context, context.CancelFunc) {
+	c := &ModelCtx{done: make(chan struct{})}
+	ChanDoneOnly(c.done)
+	return c, func() {
+		if !c.closed {
+			c.closed = true
+			close(c.done)
+		}
+	}
+}
+
+// ---- captured standard output ----
+
+var (
+	capDir   string
+	capFile  *os.File
+	capSaved *os.File
+)
+
+// CaptureBegin starts recording what the code under test prints on standard output.
+func CaptureBegin() {
+	capDir, _ = os.MkdirTemp("", "vncap")
+	capSaved = os.Stdout
+	capFile, _ = os.CreateTemp(capDir, "stdout")
+	os.Stdout = capFile
+}
+
+// CaptureEnd stops recording and returns the printed lines.
+func CaptureEnd() []string {
+	if capFile == nil {
+		return nil
+	}
+	os.Stdout = capSaved
+	capFile.Sync()
+	b, _ := os.ReadFile(capFile.Name())
+	capFile.Close()
+	os.RemoveAll(capDir)
+	capFile = nil
+	var lines []string
+	for _, l := range strings.Split(string(b), "\n") {
+		if l != "" {
+			lines = append(lines, l)
+		}
+	}
+	return lines
+}
